@@ -658,7 +658,66 @@ class HoroArc(Op):
                 ("thetas", th, "deg" if params["degrees"] else "rad")]
 
 
-OPS = [Coords(), AffineCoords(), Distance(), OriginTo(), TvOriginTo(), UnitTangent(),
+NULL_VECTORS = {   # exactly lightlike integer vectors of R^(n,1)
+    1: [[1, 1], [1, -1], [2, -2]],
+    2: [[5, 3, 4], [1, 1, 0], [1, 0, -1], [13, -5, 12], [5, -4, 3]],
+    3: [[3, 1, 2, 2], [1, 1, 0, 0], [9, 4, 4, 7], [3, -2, 2, 1], [1, 0, 0, -1]],
+    4: [[2, 1, 1, 1, 1], [1, 0, 1, 0, 0], [5, 3, 0, 4, 0], [3, 2, 2, 1, 0]],
+}
+
+
+class MixedCausal(Op):
+    """a composite Point whose units are interior points in NON-normalised projective
+    coordinates and exactly lightlike ideal points, mixed: every unit is handled as it is
+    on its own (an exactly null vector has nothing to be normalised by; its neighbours
+    still do)"""
+    name = "mixed_interior_and_ideal_points"
+
+    def params(self, draw):
+        return dict(n=draw(st.integers(1, 4)))
+
+    def unit(self, draw, params):
+        n = params["n"]
+        if draw(st.integers(0, 2)) == 0:
+            v = draw(st.sampled_from(NULL_VECTORS[n]))
+            s = draw(st.sampled_from([1, 1, -1, 2]))
+            return dict(kind="ideal", v=[float(s * x) for x in v])
+        k = draw(gen.klein_point(n, rmax=0.95))
+        s = draw(gen.scalars_pm(0.3, 4.0))
+        return dict(kind="interior", v=[s] + [s * x for x in k])
+
+    def run(self, params, units, shape, ctx=None):
+        n = params["n"]
+        V = np.array([u["v"] for u in units], dtype=float).reshape(tuple(shape) + (n + 1,))
+        interior = np.array([u["kind"] == "interior" for u in units]).reshape(tuple(shape))
+        Pt = H.Point(V.copy())
+        hyp = np.array(Pt.hyperboloid_coords())
+        kl = np.array(H.Point(V.copy()).coords("klein"))
+        other = H.Point(np.array([1.0] + [0.2] * n))
+        with np.errstate(all="ignore"):
+            d = np.array(H.Point(V.copy()).distance(other))
+        if ctx is not None:
+            if interior.any() and not interior.all():
+                ctx.label("mixed")
+            J = _jform(n + 1)
+            nrm = np.einsum("...i,ij,...j->...", hyp, J, hyp)
+            ctx.close("interior units are normalised to the hyperboloid", nrm[interior],
+                      -np.ones(int(interior.sum())), rtol=0, atol=1e-9)
+            ctx.close("Klein coordinates are the chart coordinates", kl,
+                      V[..., 1:] / V[..., :1], rtol=1e-12, atol=1e-12)
+            want = HY.dist_projective(V[interior], np.broadcast_to(
+                np.array([1.0] + [0.2] * n), V[interior].shape))
+            ctx.close("distance of the interior units to a fixed point", d[interior], want,
+                      rtol=1e-7, atol=1e-6)
+        dm = np.where(interior, d, 0.0)
+        return [("hyperboloid coords", hyp, "proj"), ("klein", kl, "close"),
+                ("distance (interior units)", dm, "dist"),
+                ("hyperboloid norms (interior units)",
+                 np.where(interior, np.einsum("...i,ij,...j->...", hyp, _jform(n + 1), hyp), 0.0),
+                 "close")]
+
+
+OPS = [MixedCausal(), Coords(), AffineCoords(), Distance(), OriginTo(), TvOriginTo(), UnitTangent(),
        PointAlong(), SegmentCtor(), PolygonEdges(), CircleParameters(), SphereParameters(),
        FixedPoints(), Sl2Irrep(), Sl2ToSo21(), HoroArc()]
 OP = {o.name: o for o in OPS}
